@@ -433,13 +433,184 @@ func inSliceRange(a *Term, s *SliceV) *Term {
 
 // ---------- loops with invariants ----------
 
-func (ex *Exec) atLoopHead(fr *Frame, b *ssa.BasicBlock, prev *ssa.BasicBlock, st *State, visits map[*ssa.BasicBlock]int, li *loopInfo) {
-	panic(abortPath{"loop invariants not implemented yet"})
-}
-
 type loopInfo struct {
 	spec *LoopSpec
 	idx  int
+}
+
+const iterGap = 1000000 // region ids reserved for allocations of earlier iterations
+
+// loopEnv: names visible in loop clauses: parameters, source-level locals (DebugRef), header phis.
+func (ex *Exec) loopEnv(fr *Frame, b *ssa.BasicBlock, st *State, old *State) *SpecEnv {
+	fn := fr.fn
+	var args []Value
+	for _, p := range fn.Params {
+		args = append(args, fr.regs[p])
+	}
+	pkg := fn.Pkg.Pkg
+	env := &SpecEnv{ex: ex, vars: paramBindings(fn.Signature, args, nil), st: st, old: old, pkg: pkg, mode: "prove"}
+	for k, v := range ex.rootVars {
+		if _, ok := env.vars[k]; !ok {
+			env.vars[k] = v
+		}
+	}
+	for name, ref := range fr.names {
+		val, ok := fr.regs[ref.v]
+		if !ok {
+			if c, isC := ref.v.(*ssa.Const); isC {
+				val = ex.constValue(c)
+			} else {
+				continue
+			}
+		}
+		t := ref.v.Type()
+		if ref.isAddr {
+			pt, ok := t.Underlying().(*types.Pointer)
+			if !ok {
+				continue
+			}
+			env.vars[name] = TV{V: st.Load(pt.Elem(), val.(*Term)), T: pt.Elem()}
+		} else {
+			env.vars[name] = TV{V: val, T: t}
+		}
+	}
+	for _, in := range b.Instrs {
+		phi, ok := in.(*ssa.Phi)
+		if !ok {
+			break
+		}
+		if phi.Comment != "" {
+			if v, ok := fr.regs[phi]; ok {
+				env.vars[phi.Comment] = TV{V: v, T: phi.Type()}
+			}
+		}
+	}
+	return env
+}
+
+// atLoopHead returns true if execution should continue into the header block.
+func (ex *Exec) atLoopHead(fr *Frame, b *ssa.BasicBlock, prev *ssa.BasicBlock, st *State, visits map[*ssa.BasicBlock]int, li *loopInfo) bool {
+	lname := fmt.Sprintf("loop%d", li.idx)
+	evalInv := func(env *SpecEnv, kind string) []*Term {
+		var gs []*Term
+		for _, c := range li.spec.Invariants {
+			g, err := env.EvalBool(c.Expr)
+			if err != nil {
+				panic(abortAll{fmt.Sprintf("%s invariant %q: %v", lname, c.Text, err)})
+			}
+			gs = append(gs, g)
+			if kind != "" {
+				ex.addObl(st, "inv", fmt.Sprintf("%s:%s:%s", lname, kind, c.Label), g, c.Text)
+			}
+		}
+		return gs
+	}
+	if ctx, active := fr.loops[b]; active {
+		// back edge: invariant preserved, measure decreases; path ends here
+		env := ex.loopEnv(fr, b, st, ex.entry)
+		evalInv(env, "preserve")
+		if li.spec.Decreases != nil {
+			m1 := env.eval(li.spec.Decreases.Expr)
+			m1t := SignExt(m1.V.(*Term), 64)
+			g := And(BVCmp("bvsge", ctx.measure, BVc(0, 64)), BVCmp("bvslt", m1t, ctx.measure))
+			ex.addObl(st, "inv", lname+":decreases", g, li.spec.Decreases.Text)
+		}
+		ex.paths++
+		return false
+	}
+	// first arrival
+	env := ex.loopEnv(fr, b, st, ex.entry)
+	evalInv(env, "init")
+	// havoc loop-carried values (header phis) and declared memory
+	base := *st.nextRg
+	*st.nextRg = base + iterGap
+	for _, in := range b.Instrs {
+		phi, ok := in.(*ssa.Phi)
+		if !ok {
+			break
+		}
+		nm := phi.Comment
+		if nm == "" {
+			nm = phi.Name()
+		}
+		fr.regs[phi] = st.SymValue(phi.Type(), lname+"."+nm, *st.nextRg)
+	}
+	if len(li.spec.Modifies) > 0 {
+		ct := ex.eng.contractFor(fr.fn)
+		env0 := ex.loopEnv(fr, b, st, ex.entry)
+		for _, m := range li.spec.Modifies {
+			ex.havocSpec(m, env0, st, ct)
+		}
+	}
+	// locals whose address is taken and that are assigned inside the loop live in
+	// regions allocated before the loop: they are covered by "loop N: modifies".
+	env2 := ex.loopEnv(fr, b, st, ex.entry)
+	for _, g := range evalInv(env2, "") {
+		st.AssumeCond(g)
+	}
+	ctx := &loopCtx{li: li}
+	if li.spec.Decreases != nil {
+		m0 := env2.eval(li.spec.Decreases.Expr)
+		if m0.U != nil {
+			panic(abortAll{"constant decreases expression"})
+		}
+		ctx.measure = SignExt(m0.V.(*Term), 64)
+	}
+	if fr.loops == nil {
+		fr.loops = map[*ssa.BasicBlock]*loopCtx{}
+	}
+	fr.loops[b] = ctx
+	// loop frame: stores to regions that existed before the loop must be inside "loop modifies"
+	var mods []modItem
+	func() {
+		defer func() {
+			if r := recover(); r != nil {
+				if se, ok := r.(specErr); ok {
+					panic(abortAll{lname + " modifies: " + se.msg})
+				}
+				panic(r)
+			}
+		}()
+		for _, m := range li.spec.Modifies {
+			mods = append(mods, env2.modItem(m))
+		}
+	}()
+	outer := st.frameCheck
+	outerR := st.frameCheckRange
+	st.frameCheck = func(ex *Exec, st *State, in ssa.Instruction, a *Term) {
+		if outer != nil {
+			outer(ex, st, in, a)
+		}
+		g := loopFrameGoal(a, base, mods)
+		if !g.IsTrue() {
+			ex.addObl(st, "frame", lname+":frame", g, ex.pos(in))
+		}
+	}
+	st.frameCheckRange = func(ex *Exec, st *State, in ssa.Instruction, dst *SliceV, n *Term) {
+		if outerR != nil {
+			outerR(ex, st, in, dst, n)
+		}
+		g := Or(IntCmp(">", Rg(dst.Base), IntConst(base+iterGap)), frameRangeGoal(dst, n, mods))
+		if !g.IsTrue() {
+			ex.addObl(st, "frame", lname+":frame", Implies(Neq(n, BVc(0, 64)), g), ex.pos(in))
+		}
+	}
+	return true
+}
+
+// a store inside a loop body is fine if it goes to a region allocated in this
+// iteration, or falls inside the loop's declared modifies set.
+func loopFrameGoal(a *Term, base int64, mods []modItem) *Term {
+	alts := []*Term{IntCmp(">", Rg(a), IntConst(base+iterGap))}
+	for _, m := range mods {
+		switch m.kind {
+		case "under":
+			alts = append(alts, underTerm(a, m.addr))
+		case "range":
+			alts = append(alts, inSliceRangeC(a, m.slice))
+		}
+	}
+	return Or(alts...)
 }
 
 func callArg(in ssa.Instruction, i int) ssa.Value {
